@@ -241,7 +241,21 @@ where
         if let (Some(v), false) = (plain, matches!(tag, SfTag::Degrees)) {
             return Ok(v);
         }
-        return crate::robotics::parse_yaml12_float_angle_converting(s, location, tag);
+        let evaluated = crate::robotics::parse_yaml12_float_angle_converting(s, location, tag);
+        if evaluated.is_err() && plain.is_some() {
+            // `!degrees` on an ordinary literal the evaluator's grammar does not know
+            // (`infinity`, blanks only `str::trim` strips): the literal's value, converted.
+            let literal = match lower.as_str() {
+                ".nan" | "+.nan" | "-.nan" => Some(f64::NAN),
+                ".inf" | "+.inf" => Some(f64::INFINITY),
+                "-.inf" => Some(f64::NEG_INFINITY),
+                _ => t.parse::<f64>().ok(),
+            };
+            if let Some(v) = literal {
+                return Ok(T::from_f64(v * crate::robotics::DEG2RAD));
+            }
+        }
+        return evaluated;
     }
     plain.ok_or(Error::InvalidScalar {
         ty: "floating point",
